@@ -119,7 +119,8 @@ for _c, _n in ((0, 'int'), (3, 'exp')):
 # fixed point: one run per divisor of the property's quantifier {built-in 2,16,256,1000; +-10^k}; the floating point
 # multiplication/division by a symbolic divisor does not finish, a concrete divisor does (harness-enforced, B2)
 _QUICK_DIVS = (10, 256, -10, 1000)     # kissat: 40-60 s per divisor (MiniSat: 250-400 s)
-for _d in [2, 16, 256] + [10 ** k for k in range(1, 10)] + [-(10 ** k) for k in range(1, 10)]:
+# multipliers beyond 10^6 did not finish within 1800 s with either back end and are not claimed
+for _d in [2, 16, 256] + [10 ** k for k in range(1, 10)] + [-(10 ** k) for k in range(1, 7)]:
     R('parseInput_fix_div%s' % str(_d).replace('-', 'm'), 'h_parseInput_b2', None, defines=['CASE_PI=%d' % (1 if _d > 0 else 2), 'CASE_DIV=%d' % _d],
       props=('C07', 'C12', 'C20'), cost=80, solver='kissat', tier='quick' if _d in _QUICK_DIVS else 'thorough')
 for _b in (0, 1):
